@@ -237,7 +237,9 @@ class MPSPerChannelQtz(MPSBaseQtz):
                                                        dtype=torch.float32))
         # initial sampling
         with torch.no_grad():
-            self.sample_alpha()
+            # the first sample is always a plain softmax, so that the sampled coefficients are a valid
+            # selection also when sampling is disabled at construction time
+            self.sample_alpha_sm()
 
     def forward(self, input: torch.Tensor) -> torch.Tensor:
         """The forward function of the searchable mixed-precision layer.
@@ -341,7 +343,9 @@ class MPSPerLayerQtz(MPSBaseQtz):
         self.register_buffer('theta_alpha', torch.ones((len(precision),), dtype=torch.float32))
         # initial sampling
         with torch.no_grad():
-            self.sample_alpha()
+            # the first sample is always a plain softmax, so that the sampled coefficients are a valid
+            # selection also when sampling is disabled at construction time
+            self.sample_alpha_sm()
 
     def forward(self, input: torch.Tensor) -> torch.Tensor:
         """The forward function of the searchable mixed-precision layer.
